@@ -6,6 +6,7 @@ pub mod c02;
 pub mod c03;
 pub mod c04;
 pub mod c05;
+pub mod c07;
 pub mod c10;
 pub mod c11;
 pub mod c12;
@@ -21,6 +22,7 @@ pub fn run(a: &Args) -> Report {
         "smoke" => smoke::run(a),
         "c19" => c19::run(a),
         "c10" => c10::run(a),
+        "c07" => c07::run(a),
         "c04" => c04::run(a),
         "c05" => c05::run(a),
         "c03" => c03::run(a),
